@@ -11,6 +11,18 @@ from props.C15 import call, on, nl, onat, bl
 EQ_UNIV = ["e:1", "e:1", "t:1,2", "t:1,2", "i:4", "i:4", "d:3", "d:3", "s:q", "s:q"]
 
 
+def spine_shape(rng, depth):
+    """nested tuples: one chain of `depth` levels running through a random position of every sibling list"""
+    cur = ()
+    for _ in range(depth - 1):
+        kids = [rng.choice([(), (), ((),)]) for _ in range(rng.randint(0, 2))]
+        kids.insert(rng.randint(0, len(kids)), cur)
+        cur = tuple(kids)
+    top = [rng.choice([(), ((),)]) for _ in range(rng.randint(0, 2))]
+    top.insert(rng.randint(0, len(top)), cur)
+    return tuple(top)
+
+
 def deep_chain(n):
     nodes = []
     for i in reversed(range(n)):
@@ -36,11 +48,12 @@ class Prop:
     case_module = "CaseNav"
     case_vo = "theories/Cases/CaseNav.vo"
     run_fn = "run10"
-    shard = 40
+    shard = 30
     rule = ("plain trees: every ordered forest with <= N nodes (N=5 quick, 6 thorough) with three labelings each (distinct strings; "
             "equal-comparing objects under distinct explicit data_ids; mixed with clones in different parents) plus seeded random trees "
             "up to 25 nodes; TYPED trees (every forest <= 4 nodes with alternating kinds + random ones; the plain queries are observed "
-            "through the ANY_KIND / any_kind=True variants TypedNode offers); DEEP random trees (depth >= 8, up to 30 nodes); WIDE forests "
+            "through the ANY_KIND / any_kind=True variants TypedNode offers); DEEP random trees (depth >= 8) and SPINES of depth 8..12 that run "
+            "through a random position of every sibling list; WIDE forests "
             "whose many siblings (and top-level nodes) hold equal-comparing data of several sorts (value-equal objects, equal tuples, "
             "equal ints, equal frozen dataclasses, equal strings) under distinct data_ids; every query of node.py:373-540 on every node, "
             "every ordered pair for the ancestor/descendant/common-ancestor tests, up(k) for k=0..depth+1, Tree.calc_height.  "
@@ -70,6 +83,14 @@ class Prop:
     )
 
     def descs(self, tier, rng):
+        # the big cases (deep / spine / wide / random) are generated last; spread them evenly over the shards of the
+        # correspondence run (contiguous chunks of `shard` cases are evaluated in parallel)
+        ds = list(self._descs(tier, rng))
+        stride = max(1, -(-len(ds) // self.shard))
+        for r in range(stride):
+            yield from ds[r::stride]
+
+    def _descs(self, tier, rng):
         nmax = 5 if tier == "quick" else 6
         yield from CORPUS
         for n in range(1, nmax + 1):
@@ -94,15 +115,15 @@ class Prop:
             for shape in H.forests(n):
                 yield dict(typed=True, univ=["e:1"] * n,
                            nodes=B.shape_to_nodes(shape, lambda i, d, s: (i, "ab"[(i + d) % 2], f"k{i}")))
-        for _ in range(25 if tier == "quick" else 200):
-            n = rng.randint(6, 20)
+        for _ in range(20 if tier == "quick" else 200):
+            n = rng.randint(6, 16 if tier == "quick" else 24)
             shape = H.random_shape(rng, n, deep=rng.choice([0.2, 0.5, 0.85]))
             ks = [rng.choice("abc") for _ in range(n)]
             yield dict(typed=True, univ=["e:1"] * n, nodes=B.shape_to_nodes(shape, lambda i, d, s, ks=ks: (i, ks[i], f"k{i}")))
         # (e) deep trees: depth >= 8
-        for _ in range(20 if tier == "quick" else 150):
+        for _ in range(14 if tier == "quick" else 150):
             for _try in range(50):
-                n = rng.randint(12, 30)
+                n = rng.randint(10, 22 if tier == "quick" else 34)
                 shape = H.random_shape(rng, n, deep=rng.choice([0.8, 0.9, 0.97]))
                 nodes = B.shape_to_nodes(shape, lambda i, d, s: (i % len(EQ_UNIV), None, f"k{i}"))
                 if B.nodes_depth(nodes) >= 8:
@@ -110,9 +131,16 @@ class Prop:
             else:
                 nodes = deep_chain(n)
             yield dict(univ=EQ_UNIV, nodes=nodes)
+        # (g) spines: depth 8..12, the chain continues through a RANDOM position of each sibling list (so the deepest
+        #     leaf, the path to it and the common ancestors are not always first children), small side branches
+        for _ in range(12 if tier == "quick" else 120):
+            shape = spine_shape(rng, rng.randint(8, 12))
+            lab = rng.choice([None, 0, 2])
+            yield dict(univ=EQ_UNIV, nodes=B.shape_to_nodes(
+                shape, lambda i, d, s, lab=lab: ((i % len(EQ_UNIV)) if lab is None else lab + (i % 2), None, f"k{i}")))
         # (f) wide forests: many siblings / top-level nodes with equal-comparing data of several sorts
-        for _ in range(20 if tier == "quick" else 150):
-            n = rng.randint(8, 24)
+        for _ in range(14 if tier == "quick" else 150):
+            n = rng.randint(8, 18 if tier == "quick" else 28)
             shape = H.random_shape(rng, n, deep=rng.choice([0.0, 0.05, 0.15]))
             lab = [rng.randrange(len(EQ_UNIV)) for _ in range(n)]
             yield dict(univ=EQ_UNIV, nodes=B.shape_to_nodes(shape, lambda i, d, s, lab=lab: (lab[i], None, f"k{i}")))
